@@ -1052,9 +1052,36 @@ func registerLibModels() {
 		}
 		return Iface{}
 	}
-	m["(*sync.WaitGroup).Add"] = nop
-	m["(*sync.WaitGroup).Done"] = nop
-	m["(*sync.WaitGroup).Wait"] = nop
+	// sync.WaitGroup: a concrete counter per WaitGroup object. Without goroutines a Wait on a
+	// positive counter never returns (reported as a deadlock); a negative counter panics as in sync.
+	wgAdd := func(c *Ctx, p Ptr, d int64) {
+		if c.wgs == nil {
+			c.wgs = map[string]int64{}
+		}
+		k := c.ptrKey(p)
+		c.wgs[k] += d
+		if c.wgs[k] < 0 {
+			c.goPanic("waitgroup", "sync: negative WaitGroup counter")
+		}
+	}
+	m["(*sync.WaitGroup).Add"] = func(c *Ctx, fn *ssa.Function, a []Value) Value {
+		d, ok := c.constInt(a[1].(*Term), true)
+		if !ok {
+			c.unsupported("sync.WaitGroup.Add of a symbolic delta")
+		}
+		wgAdd(c, a[0].(Ptr), d)
+		return nil
+	}
+	m["(*sync.WaitGroup).Done"] = func(c *Ctx, fn *ssa.Function, a []Value) Value {
+		wgAdd(c, a[0].(Ptr), -1)
+		return nil
+	}
+	m["(*sync.WaitGroup).Wait"] = func(c *Ctx, fn *ssa.Function, a []Value) Value {
+		if c.wgs[c.ptrKey(a[0].(Ptr))] > 0 {
+			c.abort("deadlock", "sync.WaitGroup.Wait with a positive counter and nobody left to call Done")
+		}
+		return nil
+	}
 	m["runtime.Gosched"] = nop
 
 	// math
